@@ -67,6 +67,23 @@ class AwaitBeforeReturn(nfa.Spec):
         return st
 
 
+class _AwaitLab(nfa.Spec):
+    init = ("idle",)
+
+    def __init__(self, lab):
+        self.lab = lab
+
+    def step(self, st, label):
+        ev = label.split("@")[0]
+        if ev == "call:" + self.lab:
+            return ("pending",)
+        if ev == "done:" + self.lab:
+            return ("idle",)
+        if ev == "ret" and st[0] == "pending":
+            return nfa.Err("returns although the future of the waiting submission was not driven to completion on this path")
+        return st
+
+
 def run(ctx):
     ctx.explanation = EXPL
     ctx.assumptions = ["futures-channel mpsc is a linearizable FIFO; a fresh Sender clone is never parked, so SinkExt::send enqueues on first poll", "Box<dyn FnOnce> can be invoked at most once (language)"]
@@ -79,18 +96,20 @@ def run(ctx):
     return core.finish(ctx)
 
 
-def check_cfg(ctx, fx, cfg):
+def check_single_queue(ctx, fx, cfg, r1="R01.1", r2="R01.2"):
+    """one mpsc queue per actor, created in the two constructors; the waiting, forcing and receive closures hold ends of
+    that one channel (shared by the properties whose ordering argument rests on the single FIFO)"""
     # R01.1 one queue
     ctors = chan.constructors(fx)
-    ctx.floor("R01.1", "mailbox queue constructors (%s)" % cfg, len(ctors), 2)
+    ctx.floor(r1, "mailbox queue constructors (%s)" % cfg, len(ctors), 2)
     for fn_, calls in sorted(ctors.items()):
         f = fx.fn(fn_)
         ok = len(calls) == 1 and f["kind"] in ("assoc_fn", "fn") and f.get("impl_self", "").startswith("channel::Channel<")
-        ctx.require(ok, "R01.1", "ctor:%s@%s" % (fn_, cfg), "the mailbox queue must be created once, in a constructor of channel::Channel (a second queue breaks the single FIFO)", fn=fn_, site=calls[0][1]["l"], detail={"calls": len(calls)})
-    ctx.require(len(ctors) == 2, "R01.1", "ctor-count@" + cfg, "expected exactly the bounded and the unbounded constructor, found %s" % sorted(ctors), detail=sorted(ctors))
+        ctx.require(ok, r1, "ctor:%s@%s" % (fn_, cfg), "the mailbox queue must be created once, in a constructor of channel::Channel (a second queue breaks the single FIFO)", fn=fn_, site=calls[0][1]["l"], detail={"calls": len(calls)})
+    ctx.require(len(ctors) == 2, r1, "ctor-count@" + cfg, "expected exactly the bounded and the unbounded constructor, found %s" % sorted(ctors), detail=sorted(ctors))
     # R01.2 the three closures of each constructor hold ends of that one channel
     subs = chan.submit_closures(fx)
-    ctx.floor("R01.2", "submit/receive closures (%s)" % cfg, len(subs), 6)
+    ctx.floor(r2, "submit/receive closures (%s)" % cfg, len(subs), 6)
     for fn_, calls in sorted(ctors.items()):
         f = fx.fn(fn_)
         b = ctx.body(fx, f)
@@ -121,8 +140,13 @@ def check_cfg(ctx, fx, cfg):
                         for r1 in (b.origins(t0["args"][0]) if t0["args"] else []):
                             if r1.kind == "call" and r1.site == (chan_bb,):
                                 ends.add(r1.proj[0] if r1.proj else None)
-                ctx.require(good and ends == {want}, "R01.2", "%s-closure:%s@%s" % (kind[0], fn_, cfg), "a submit / receive closure holds an end of a different channel (ends %s, roots %s)" % (ends, sorted(map(str, rs))), fn=fn_, site=st.get("l"), detail={"captures": ty[:70], "end": sorted(map(str, ends))})
-        ctx.require(sorted(kinds) == ["forcing", "receive", "waiting"], "R01.2", "closure-set:%s@%s" % (fn_, cfg), "constructor must build exactly one waiting, one forcing and one receive closure, found %s" % sorted(kinds), fn=fn_, site=f["loc"])
+                ctx.require(good and ends == {want}, r2, "%s-closure:%s@%s" % (kind[0], fn_, cfg), "a submit / receive closure holds an end of a different channel (ends %s, roots %s)" % (ends, sorted(map(str, rs))), fn=fn_, site=st.get("l"), detail={"captures": ty[:70], "end": sorted(map(str, ends))})
+        ctx.require(sorted(kinds) == ["forcing", "receive", "waiting"], r2, "closure-set:%s@%s" % (fn_, cfg), "constructor must build exactly one waiting, one forcing and one receive closure, found %s" % sorted(kinds), fn=fn_, site=f["loc"])
+    return ctors, subs
+
+
+def check_cfg(ctx, fx, cfg):
+    ctors, subs = check_single_queue(ctx, fx, cfg)
     # R01.3 enqueue before return
     A = nfa.Alphabet(calls=[("enq", chan.is_enqueue)], adts={"core::ops::control_flow::ControlFlow": "Res", "core::result::Result": "Res"}, retval=True)
     n_sub = 0
@@ -234,6 +258,39 @@ def check_cfg(ctx, fx, cfg):
         ctx.require(sorted(v["name"] for v in pa["variants"]) == ["Restart", "Stop", "Task"], "R01.6", "payload-variants@" + cfg, "Payload variants changed: %s" % [v["name"] for v in pa["variants"]], site=pa["loc"])
     for f, kind in loops.find_loops(fx):
         ctx.require("A" in f.get("upvars", []), "R01.6", "%s-loop-owns-actor-by-value@%s" % (kind, cfg), "the loop future must own the actor value itself (type A), found captures %s" % [u[:40] for u in f.get("upvars", [])], fn=f["def"], site=f["loc"])
+    # R01.9 the future of every waiting submission is driven where it is created (or handed to the caller): a spawned or
+    # parked send would enqueue later — after submissions that began after this one returned
+    WAITING_FUTS = ("addr::sender::SenderFn::send", "addr::sender::Sender::<M>::send", "addr::caller::CallerFn::call", "addr::caller::Caller::<M>::call",
+                    "addr::Addr::<A>::send", "addr::Addr::<A>::call", "addr::Addr::<A>::ping", "addr::weak_sender::WeakSender::<M>::try_send", "addr::weak_caller::WeakCaller::<M>::try_call",
+                    "addr::OwningAddr::<A>::send", "addr::OwningAddr::<A>::call", "addr::OwningAddr::<A>::ping")
+    n_wf = 0
+    for f in fx.d["fns"]:
+        b = ctx.body(fx, f)
+        for bi, t in b.normal_calls():
+            c = t.get("callee")
+            if c not in WAITING_FUTS and t.get("trait") != chan.TX_TRAIT:
+                continue
+            if len(t["dest"]) != 1:
+                continue
+            n_wf += 1
+            inst = "%s<-%s@%s" % (f["def"], (c or "").split("::")[-2:], cfg)
+            inst = "%s<-%s@%s" % (f["def"], "::".join((c or "").split("::")[-2:]), cfg)
+            fsk = sinks(b, t["dest"][0])
+            awaited = any(s["k"] == "call" and (s["t"].get("callee") or "").endswith("Future::poll") for s in fsk)
+            returned = any(s["k"] == "ret" for s in fsk) or t["dest"] == [0]
+            stray = [(s["t"].get("callee")) for s in fsk if s["k"] == "call" and not (s["t"].get("callee") or "").endswith(("Future::poll", "get_context"))] + [s["k"] for s in fsk if s["k"] in ("agg", "store", "yield")]
+            ok = (awaited or returned) and not stray
+            if ok and awaited and not returned:
+                lab = "wf%d" % bi
+                WA = nfa.Alphabet(calls=[(lab, lambda x, _t=t: x is _t)], retval=False)
+                wn = nfa.build(b, WA)
+                spec = AwaitBeforeReturn()
+                spec.lab = lab
+                wv, wps = nfa.check(wn, _AwaitLab(lab))
+                ctx.count_nfa(wn.stats(), wps)
+                ok = not wv
+            ctx.require(ok, "R01.9", inst, "the future of a waiting submission must be awaited in place on every path, or returned to the caller — not spawned, stored or dropped (stray uses: %s)" % stray, fn=f["def"], site=t["l"])
+    ctx.floor("R01.9", "waiting-submission futures (%s)" % cfg, n_wf, 12)
     # R01.8 each payload closure runs the handler of its own message exactly once on the loop's (actor, ctx)
     n_pl = 0
     for key, ent in fx.dyn.items():
